@@ -198,7 +198,7 @@ theorem eVT_ren (inF : Bool) (env : Env) (v : Var) : eVT inF (renEnv ρ env) (v.
   | name t => exact sRead_ren hρ inF env t true
   | expr sp p ss =>
     show ePT inF (renEnv ρ env) (p.ren ρ) ++ eSs inF (renEnv ρ env) (ss.ren ρ) = ePT inF env p ++ eSs inF env ss
-    rw [ePT_ren inF env p, eSs_ren hρ inF env ss]
+    rw [ePT_ren hρ inF env p, eSs_ren hρ inF env ss]
 
 theorem sTargets_ren (inF : Bool) (env : Env) (vars : VarList) (es : ExprList) :
     sTargets inF (renEnv ρ env) (vars.ren ρ) (es.ren ρ) = sTargets inF env vars es := by
@@ -477,7 +477,7 @@ theorem sStmt_ren (inF : Bool) (env : Env) (s : Stmt) :
       show (if (!more.isEmpty || method.isSome) = true then sRead inF (renEnv ρ env) (base.ren ρ) true else sAssign (renEnv ρ env) (base.ren ρ)) ++
           sBody (renEnv ρ env) method (body.ren ρ) =
         (if (!more.isEmpty || method.isSome) = true then sRead inF env base true else sAssign env base) ++ sBody env method body
-      rw [sRead_ren hρ, sBody_ren env method body, sAssign_ren hρ]
+      rw [sRead_ren hρ inF env base true, sBody_ren env method body, sAssign_ren hρ]
   | localFunc sp name body =>
     refine ⟨?_, ?_⟩
     · show sDecl (renEnv ρ env) (name.ren ρ) (name.ren ρ).text ++
